@@ -205,8 +205,9 @@ theorem absSend_rd_toNat (a b c : UInt8) :
     mul_or b.toNat c.toNat 8 (by omega), mul_or a.toNat _ 16 (by omega)]
   omega
 
-theorem absSend_marshal (v prev : AbsSendTime) : marshalOk absSendSpec v (modelM absSend v prev) = true := by
-  obtain ⟨t⟩ := v
+/-- what AbsSendTime.Marshal emits for ANY 64-bit timestamp: the layout of its low 24 bits -/
+theorem absSend_marshal_layout (t : UInt64) :
+    absSendMarshal ⟨t⟩ = .ok (render (absSendTime (t.toNat % 2 ^ 24))) := by
   obtain ⟨p1, p2, p3⟩ := absSend_bytes t
   have hm : absSendMarshal ⟨t⟩ =
       .ok [((t &&& 0xFF0000) >>> 16).toUInt8, ((t &&& 0xFF00) >>> 8).toUInt8, (t &&& 0xFF).toUInt8] := rfl
@@ -214,18 +215,33 @@ theorem absSend_marshal (v prev : AbsSendTime) : marshalOk absSendSpec v (modelM
   generalize ((t &&& 0xFF00) >>> 8).toUInt8 = y at hm p2
   generalize (t &&& 0xFF).toUInt8 = z at hm p3
   have ht := t.toNat_lt
-  simp only [marshalOk, absSendSpec, modelM, absSend, hm, absSendUnmarshal, Res.coarse, render, absSendTime, width, pack, bytesBE]
+  simp only [hm, render, absSendTime, width, pack, bytesBE]
   simp
-  refine ⟨⟨?_, ?_, ?_⟩, ?_⟩
+  refine ⟨?_, ?_, ?_⟩
   · apply u8_ext; simp; omega
   · apply u8_ext; simp; omega
   · apply u8_ext; simp; omega
-  · by_cases h : 16777216 ≤ t
-    · exact Or.inl h
-    · right
-      have h' : t.toNat < 16777216 := by
-        have := UInt64.not_le.mp h; have := UInt64.lt_iff_toNat_lt.mp this; simpa using this
+
+theorem absSend_marshal (v prev : AbsSendTime) : marshalOk absSendSpec v (modelM absSend v prev) = true := by
+  obtain ⟨t⟩ := v
+  by_cases h : t < 16777216
+  · have hl := absSend_marshal_layout t
+    obtain ⟨p1, p2, p3⟩ := absSend_bytes t
+    have hm : absSendMarshal ⟨t⟩ =
+        .ok [((t &&& 0xFF0000) >>> 16).toUInt8, ((t &&& 0xFF00) >>> 8).toUInt8, (t &&& 0xFF).toUInt8] := rfl
+    rw [hm] at hl
+    generalize ((t &&& 0xFF0000) >>> 16).toUInt8 = x at hm p1 hl
+    generalize ((t &&& 0xFF00) >>> 8).toUInt8 = y at hm p2 hl
+    generalize (t &&& 0xFF).toUInt8 = z at hm p3 hl
+    have h' : t.toNat < 16777216 := by have := UInt64.lt_iff_toNat_lt.mp h; simpa using this
+    have hrt : absSendUnmarshal prev [x, y, z] = ⟨.ok (), ⟨t⟩⟩ := by
+      simp only [absSendUnmarshal]
+      congr 2
       apply u64_ext; rw [absSend_rd_toNat]; omega
+    simp only [marshalOk, absSendSpec, modelM, absSend, hm, hrt, h, decide_true, if_true, Res.coarse]
+    injection hl with hl
+    simp [hl]
+  · simp [marshalOk, absSendSpec, h]
 
 theorem absSend_unmarshal (r : AbsSendTime) (raw : Bytes) :
     unmarshalOk absSendSpec raw ⟨(absSendUnmarshal r raw).res.coarse, (absSendUnmarshal r raw).st⟩ = true := by
@@ -425,26 +441,29 @@ theorem Verified.layout (V : Verified c S) (v : σ) (hr : S.inRange v = true) :
   obtain ⟨h1, _⟩ := h
   cases hm : c.marshal v <;> simp_all [Res.coarse]
 
-/-- out-of-range value: Marshal returns an error -/
-theorem Verified.rejects_range (V : Verified c S) (v : σ) (hr : S.inRange v = false) :
+/-- out-of-range value for which the property demands an error: Marshal returns one -/
+theorem Verified.rejects_range (V : Verified c S) (v : σ) (hr : S.inRange v = false) (hj : S.reject v = true) :
     (c.marshal v).isErr = true := by
   have h := V.m v v
-  simp only [marshalOk, modelM, hr] at h
+  simp only [marshalOk, modelM, hr, hj] at h
   exact coarse_isErr (by simpa using h)
 
-/-- Marshal never panics -/
-theorem Verified.marshal_total (V : Verified c S) (v : σ) : c.marshal v ≠ .panic := by
+/-- Marshal never panics (on the values C17 constrains) -/
+theorem Verified.marshal_total (V : Verified c S) (v : σ) (hc : S.inRange v = true ∨ S.reject v = true) :
+    c.marshal v ≠ .panic := by
   cases hr : S.inRange v with
   | true => rw [V.layout v hr]; simp
-  | false => have := V.rejects_range v hr; intro h; simp [h, Res.isErr] at this
+  | false =>
+    have hj : S.reject v = true := by rcases hc with h | h; · rw [hr] at h; cases h
+                                      · exact h
+    have := V.rejects_range v hr hj; intro h; simp [h, Res.isErr] at this
 
 /-- Unmarshal after Marshal is the identity, into any receiver -/
-theorem Verified.roundtrip (V : Verified c S) (v r : σ) (hr : S.inRange v = true) (he : S.exact v = true) :
+theorem Verified.roundtrip (V : Verified c S) (v r : σ) (hr : S.inRange v = true) :
     c.unmarshal r (render (S.layout v)) = ⟨.ok (), v⟩ := by
   have h := V.m v r
   have hl := V.layout v hr
-  simp only [marshalOk, modelM, hr, he, hl, if_true, Bool.and_eq_true, beq_iff_eq, Res.coarse, Bool.not_true,
-    Bool.false_or] at h
+  simp only [marshalOk, modelM, hr, hl, if_true, Bool.and_eq_true, beq_iff_eq, Res.coarse] at h
   obtain ⟨_, h1, h2⟩ := h
   have := coarse_ok_unit h1
   cases hu : c.unmarshal r (render (S.layout v)) with
@@ -512,9 +531,9 @@ theorem absCapture_decode_take8 (raw : Bytes) (h : 8 ≤ raw.length) (h' : raw.l
 
 /-- a statement about the specification alone (the model is only the witness): decoding the layout of an
     exactly representable value gives the value -/
-theorem Verified.spec_roundtrip (V : Verified c S) (v : σ) (hr : S.inRange v = true) (he : S.exact v = true) :
+theorem Verified.spec_roundtrip (V : Verified c S) (v : σ) (hr : S.inRange v = true) :
     S.decode (render (S.layout v)) = some v := by
-  have h1 := V.roundtrip v v hr he
+  have h1 := V.roundtrip v v hr
   cases hd : S.decode (render (S.layout v)) with
   | none => have := V.rejects_short v _ hd; rw [h1] at this; simp [Res.isErr] at this
   | some w => have := V.decodes v _ w hd; rw [h1] at this; simp at this; rw [this]
